@@ -262,6 +262,31 @@ pub fn run(cfg: &Cfg, rep: &mut Report) {
             expect_class(ctx, "push_byte into ArrayVec<u8,0>", "buffer-exhausted", r.err().map(|e| e.get_code()), false);
         }
         {
+            // the same fault through Node::run: a response that does not fit a fixed-capacity buffer, empty or still holding
+            // an earlier response - whatever the buffer held, "response buffer exhausted" is a value fault
+            use crate::mon::capdispatch::run_cap_pre;
+            use crate::mon::dev::{Dev, Script, Val};
+            use crate::mon::tree::{Built, Spec};
+            let built: Built<Dev, Script> = Built::new(&[Spec::leaf(b"LONG", false, 0)], vec![Script { id: 0, omnivore: true, emit: vec![Val::Str(b"0123456789012345678901234567890123456789")], ..Default::default() }]);
+            let pre: &[u8] = *rng.pick(&[&b""[..], b"7\n", b"1;2\n", b"\"x\"\n"]);
+            let cap = pre.len() + rng.usize(30);
+            let mut dev = Dev::new();
+            let mut c = scpi::Context::default();
+            let msg: &[u8] = if rng.bool() { b"LONG?" } else { b"LONG?;LONG?" };
+            let cr = run_cap_pre(cap, pre, built.root(), msg, &mut dev, &mut c).unwrap();
+            expect_class(ctx, if pre.is_empty() { "response exceeding an empty fixed-capacity buffer (Node::run)" } else { "response exceeding a fixed-capacity buffer that still holds an earlier response (Node::run)" }, "buffer-exhausted", cr.result.err().map(|e| e.get_code()), false);
+            if dev.hook.len() == 1 {
+                expect_class(ctx, "the error handed to the hook for an exhausted buffer", "buffer-exhausted", Some(dev.hook[0].get_code()), false);
+            }
+        }
+        {
+            // the `AUTO <Boolean>|ONCE` parameter type: a word outside its set is a value fault like a boolean's
+            use scpi_contrib::scpi1999::util::Auto;
+            let w: &[u8] = *rng.pick(&[&b"MAYBE"[..], b"ONC", b"DEF", b"TRUE", b"AUTO", b"ONCEE", b"O", b"ONN"]);
+            expect_class(ctx, "AUTO parameter from a word outside ON|OFF|ONCE", "not-in-allowed-set", Auto::try_from(Token::CharacterProgramData(w)).err().map(|e| e.get_code()), false);
+            expect_class(ctx, "AUTO parameter from a string", "wrong-element-type", Auto::try_from(Token::StringProgramData(b"ON")).err().map(|e| e.get_code()), true);
+        }
+        {
             // channel numbers: well-formed digits whose value the target cannot hold are value faults too
             use scpi::parser::expression::channel_list::{ChannelList, Token as CTok};
             fn first_spec<'a>(text: &'a [u8]) -> Option<scpi::parser::expression::channel_list::ChannelSpec<'a>> {
